@@ -441,11 +441,20 @@ def _hyp_cluster(check: Check, algs):
             # other arm keeps (opt_state, params)
             ifnode = _enclosing_if(ff, oc.call)
             other = ifnode.body if not pol else ifnode.orelse
+            kept = {}
             for st in other:
-              if isinstance(st, ast.Assign) and isinstance(st.value, ast.Tuple) and len(st.value.elts) == 2:
-                a, b = st.value.elts
-                if isinstance(a, ast.Name) and isinstance(b, ast.Name) and (a.id, b.id) == (o, p):
-                  ok_none = True
+              if isinstance(st, ast.Assign) and isinstance(st.value, ast.Tuple) and isinstance(st.targets[0], ast.Tuple) and len(st.value.elts) == len(
+                  st.targets[0].elts):
+                for t_, v_ in zip(st.targets[0].elts, st.value.elts):
+                  if isinstance(t_, ast.Name) and isinstance(v_, ast.Name):
+                    kept[t_.id] = v_.id
+              elif isinstance(st, ast.Assign) and isinstance(st.targets[0], ast.Name) and isinstance(st.value, ast.Name):
+                kept[st.targets[0].id] = st.value.id
+            sa = ff.module.enclosing_stmt(oc.call)
+            if isinstance(sa, ast.Assign) and isinstance(sa.targets[0], ast.Tuple) and len(sa.targets[0].elts) == 2 and all(
+                isinstance(t_, ast.Name) for t_ in sa.targets[0].elts):
+              r_o, r_p = (t_.id for t_ in sa.targets[0].elts)
+              ok_none = kept.get(r_o) == o and kept.get(r_p) == p
     # both results (on either arm) end up in the lists that form the new ServerState, in field order
     ok_lists = False
     why_l = 'new state constructor not found'
